@@ -1089,6 +1089,10 @@ def gen_history(rng, kind='mixed', with_queries=False, n_ops=None, raising=False
     T = ttl_q if ttl_q is not None else 8
     ordered0, ttl0 = ordered, ttl_q
     rereg = {}                     # kind 'broker': pairs (ev, cb 10/11) that are registered, removed, registered again ...
+    if kind == 'broker' and rng.random() < 0.5:
+        pair = (rng.choice('cud'), rng.choice([10, 11]))     # right away: registered, removed, registered again
+        ops.extend([['A', pair[0], pair[1]], ['D', pair[0], pair[1]], ['A', pair[0], pair[1]]])
+        rereg[pair] = True
     for _ in range(n_ops):
         if config and rng.random() < 0.14:
             if ordered and rng.random() < 0.35:
@@ -1390,7 +1394,7 @@ def run_common(ctx, prop):
     if with_q:
         hs = [add_queries(h) for h in hs]
     # the configuration changes during the history (new TTL, ordered -> unordered); very many tracks due at once
-    cf = directed_config(rng) + (directed_many(rng, (70, 130) if ctx.quick else (65, 70, 100, 150)) if prop == 'C13' or not ctx.quick else [])
+    cf = directed_config(rng) + (directed_many(rng, (70, 130) if ctx.quick else (65, 66, 70, 100, 128, 150)) if prop == 'C13' or not ctx.quick else [])
     hs += [add_queries(h, 6) for h in cf] if with_q else cf
     for i in range(ctx.budget(80 if with_q else 120, 2000)):
         hs.append(gen_history(rng, 'ttl' if i % 2 else 'mixed', with_queries=with_q, config=True, raising=(raising and i % 5 == 0)))
@@ -1587,7 +1591,7 @@ NEEDED = {
     'C12': {'merge': 0.05, 'rejected': 0.05, 'expiry': 0.05, 'pop:hit': 0.05, 'ts-equals-own-track': 0.05,
             'cfg:ttl-assigned': 0.03, 'cfg:switched-to-unordered': 0.02},
     'C13': {'expiry': 0.05, 'stale-and-fresh-mixed': 0.05, 'age==ttl': 0.05, 'age==ttl-1': 0.02, 'age==ttl+1': 0.02,
-            'cfg:ttl-shortened-with-tracks': 0.03, 'expiry:more-than-64-at-once': 0.003,
+            'cfg:ttl-shortened-with-tracks': 0.03, 'expiry:more-than-64-at-once': 0.001,
             'cb:expiry-with-keyerror-subscriber': 0.05, 'cb:several-expired-one-raises': 0.02, 'cb:exception-escaped': 0.03,
             'cb:cleanup-aborted': 0.02, 'cb:pop-with-raising-subscriber': 0.02, 'cb:created-subscriber-raises': 0.02},
     'C14': {'n==0': 0.05, 'n==len': 0.05, 'n>len': 0.05, 'n<len': 0.05, 'n_latest:ties': 0.05,
